@@ -652,6 +652,10 @@ func runAppxUnit(u Unit) UnitResult {
 		r = runAppxSignals()
 	case strings.HasPrefix(u.Name, "appx/http-surface"):
 		r = runAppxHTTP()
+	case strings.HasPrefix(u.Name, "appx/limit-reloads"):
+		r = runAppxLimitsAndEnv("C01")
+	case strings.HasPrefix(u.Name, "appx/env-reloads"):
+		r = runAppxLimitsAndEnv(u.Prop)
 	}
 	res.Execs, res.States, res.Transitions, res.Outcomes = r.Cases, r.Cases, r.Cases, r.Distinct
 	res.Samples = r.Samples
@@ -662,5 +666,160 @@ func runAppxUnit(u Unit) UnitResult {
 		res.Exhaustive = false
 		res.Caps = append(res.Caps, r.Caps...)
 	}
+	return res
+}
+
+// runAppxLimitsAndEnv: the real binary under reloads of the concurrency limit (C01) and of the pipeline environment
+// (C18, C16), through definition files and SIGUSR1 - the reload gate and the task-runner factory of app.go are part of
+// what a user runs.
+func runAppxLimitsAndEnv(prop string) appxResult {
+	var res appxResult
+	lim := func(c int) string {
+		return yamlOfDefs(definition.PipelineDef{Concurrency: c, Tasks: map[string]definition.TaskDef{"a": {Script: []string{"sleep 20"}}}})
+	}
+	running := func(a *appProc) (int, []string) {
+		_, b := a.api("GET", "/pipelines/jobs", "")
+		m, _ := decodeJSON(b).(map[string]interface{})
+		n := 0
+		var ids []string
+		if js, ok := m["jobs"].([]interface{}); ok {
+			for _, j := range js {
+				jm, _ := j.(map[string]interface{})
+				id, _ := jm["id"].(string)
+				comp, _ := jm["completed"].(bool)
+				canc, _ := jm["canceled"].(bool)
+				if !comp && !canc {
+					ids = append(ids, id)
+					if jm["start"] != nil {
+						n++
+					}
+				}
+			}
+		}
+		return n, ids
+	}
+	if prop == "C01" {
+		// every history of limits up to three reloads over {1, 2, 3} with adjacent ones different
+		var hist [][]int
+		var gen func(cur []int)
+		gen = func(cur []int) {
+			if len(cur) == 4 {
+				hist = append(hist, append([]int(nil), cur...))
+				return
+			}
+			for _, c := range []int{1, 2, 3} {
+				if c != cur[len(cur)-1] {
+					gen(append(cur, c))
+				}
+			}
+		}
+		for _, c := range []int{1, 2, 3} {
+			gen([]int{c})
+		}
+		for _, h := range hist {
+			a := startApp(map[string]string{"pipelines.yml": lim(h[0])})
+			path := filepath.Join(a.dir, "defs", "pipelines.yml")
+			ok := true
+			for i := 1; i < len(h) && ok; i++ {
+				rewriteKeepingMtime(path, lim(h[i]))
+				if got := a.reload(); got == "timeout" {
+					res.Caps = append(res.Caps, fmt.Sprintf("limit history %v: no reload log line within 5s", h[:i+1]))
+					ok = false
+					break
+				}
+				// requests after the reload: the limit on disk governs how many of them run
+				for k := 0; k < 4; k++ {
+					a.api("POST", "/pipelines/schedule", `{"pipeline":"p"}`)
+				}
+				n, ids := running(a)
+				res.Cases++
+				res.Distinct++
+				if n > h[i] {
+					res.add("C01", fmt.Sprintf("limit-after-reload-exceeded:%d-jobs-under-limit-%d", n, h[i]), fmt.Sprintf("limit history %v (definition files + SIGUSR1): %d jobs of the pipeline run at once, the limit on disk is %d", h[:i+1], n, h[i]))
+				}
+				for _, id := range ids {
+					a.api("POST", "/job/cancel?id="+id, "")
+				}
+				for w := 0; w < 400; w++ {
+					if _, left := running(a); len(left) == 0 {
+						break
+					}
+					time.Sleep(10 * time.Millisecond)
+				}
+			}
+			a.stop()
+		}
+		res.Samples = append(res.Samples, fmt.Sprintf("%d histories of three reloads over the limits {1,2,3} on the real binary; after each reload four requests, running jobs counted through the API", len(hist)))
+		return res
+	}
+	// C18 / C16: environment across reloads, with a job that waits during the reload
+	envDef := func(v string) string {
+		return yamlOfDefs(definition.PipelineDef{Concurrency: 1, Env: map[string]string{"VERIF_TARGET": v}, Tasks: map[string]definition.TaskDef{"a": {Script: []string{"sleep 0.3", `printf 'T=%s;' "$VERIF_TARGET"`}}}})
+	}
+	waitJob := func(a *appProc, id string) bool {
+		for w := 0; w < 3000; w++ {
+			_, b := a.api("GET", "/job/detail?id="+id, "")
+			m, _ := decodeJSON(b).(map[string]interface{})
+			if c, _ := m["completed"].(bool); c {
+				return true
+			}
+			if c, _ := m["canceled"].(bool); c {
+				return true
+			}
+			time.Sleep(10 * time.Millisecond)
+		}
+		return false
+	}
+	sched := func(a *appProc) string {
+		_, b := a.api("POST", "/pipelines/schedule", `{"pipeline":"p"}`)
+		m, _ := decodeJSON(b).(map[string]interface{})
+		id, _ := m["jobId"].(string)
+		return id
+	}
+	out := func(a *appProc, id string) string {
+		_, b := a.api("GET", "/job/logs?id="+id+"&task=a", "")
+		m, _ := decodeJSON(b).(map[string]interface{})
+		s, _ := m["stdout"].(string)
+		return s
+	}
+	vals := []string{"one", "two", "three"}
+	for _, h := range [][]int{{0, 1}, {0, 1, 0}, {0, 1, 2}, {1, 0, 1}} {
+		a := startApp(map[string]string{"pipelines.yml": envDef(vals[h[0]])})
+		path := filepath.Join(a.dir, "defs", "pipelines.yml")
+		for i := 1; i < len(h); i++ {
+			// a job runs, another waits; the definition changes while it waits
+			j1, j2 := sched(a), sched(a)
+			rewriteKeepingMtime(path, envDef(vals[h[i]]))
+			if got := a.reload(); got == "timeout" {
+				res.Caps = append(res.Caps, "env history: no reload log line within 5s")
+				break
+			}
+			j3 := sched(a) // accepted after the reload, runs after the two
+			if !waitJob(a, j1) || !waitJob(a, j2) || !waitJob(a, j3) {
+				res.Caps = append(res.Caps, "env history: jobs did not finish within 30s")
+				break
+			}
+			j4 := sched(a) // accepted when nothing of the old definition is left
+			if !waitJob(a, j4) {
+				res.Caps = append(res.Caps, "env history: job did not finish within 30s")
+				break
+			}
+			res.Cases += 4
+			res.Distinct += 4
+			old, cur := "T="+vals[h[i-1]]+";", "T="+vals[h[i]]+";"
+			hs := fmt.Sprint(h[:i+1])
+			for k, c := range []struct{ id, want, what string }{{j1, old, "ran during the reload"}, {j2, old, "waited during the reload"}, {j3, cur, "was accepted after the reload, behind a job of the old definition"}, {j4, cur, "was accepted after the reload"}} {
+				if got := out(a, c.id); got != c.want {
+					p := "C18"
+					if k < 2 {
+						p = "C16"
+					}
+					res.add(p, fmt.Sprintf("env-across-reload:job%d", k+1), fmt.Sprintf("environment history %s on the real binary: the job that %s printed %q, its definition says %q", hs, c.what, got, c.want))
+				}
+			}
+		}
+		a.stop()
+	}
+	res.Samples = append(res.Samples, "pipeline-level environment across reloads on the real binary: four histories over three values, per reload a running, a waiting and two later jobs")
 	return res
 }
